@@ -35,6 +35,8 @@ MIRRORED = {
     "core/src/typecheck/reporting.rs": ("C10", "coq/Crash/NameReg.v", ["gen_candidate_name", "select_uniq", "gen_var_name", "gen_cst_name", "taken", "insert"]),
     "core/src/term/string.rs": ("C10", "coq/Crash/Index.v", ["substring", "find_all_regex", "find_regex"]),
     "core/src/pretty.rs": ("C10", "coq/Crash/Index.v", ["pretty_print_cap"]),
+    "core/src/ast/compat.rs": ("C10", "coq/Crash/{TypePos,MergeDispatch}.v", None),
+    "parser/src/uniterm.rs": ("C10", "coq/Crash/TypePos.v", ["fix_type_vars_env", "fix_type_vars", "fix_field_types", "fix_for_annotation"]),
     "core/src/serialize/mod.rs": ("C10", "coq/Crash/TomlFloats.v", ["number_from_float", "check_floats", "check_value", "range_pos", "from_str", "ast_from_str",
                                                                      "to_value", "to_value_with_pos", "to_ast", "to_record"]),
     "core/src/eval/operation.rs": ("C10", "coq/Crash/{NumOps,Index}.v", [
